@@ -359,8 +359,7 @@ set_option maxRecDepth 200000 in
 /-- … and with that codec a two-write session with `DChunkSize` 2 and the index at the start closes with nil
 (so the premise `Close = nil` of `rac_roundtrip` is reachable for a codec meeting all hypotheses) -/
 example :
-    let cw : CodecW := { compress := fun p q _ => .ok ⟨0x3E00000000000000, uenc (p ++ q), -1, -1⟩, canCut := false,
-      cut := fun _ _ _ => .error (.codec 1), wrapResource := fun r => .ok r, close := none }
+    let cw : CodecW := toyCodecW
     let w0 : Writer := { dChunkSizeCfg := 2, indexAtStart := true, tempKind := 1, cPageSize := 8 }
     (((Writer.runWrites cw w0 [[1, 2, 0], [0, 5]]).Close cw).2.isNone) = true := by
   decide +kernel
